@@ -167,6 +167,7 @@ structure EnvAgree (e1 e2 : Env) : Prop where
   strptime : e1.strptime = e2.strptime
   zoneName : e1.zoneName = e2.zoneName
   fileTime : e1.fileTime = e2.fileTime
+  timeFormat : e1.timeFormat = e2.timeFormat
   path : e1.path = e2.path
 
 def Sim (st st' : St) : Prop := eraseKV st.ml = eraseKV st'.ml ∧ st.flags = st'.flags
@@ -464,10 +465,13 @@ theorem eval_sim {e1 e2 : Env} (ha : EnvAgree e1 e2) (root : Msg) (e : Expr) :
         | none => exact ⟨rfl, h⟩
         | some t => exact tail t d
     all_goals
-      rw [ha.fileTime]
-      rcases e2.fileTime _ with _ | ⟨t, s⟩
+      rw [ha.fileTime, ha.timeFormat, ha.path]
+      rcases e2.fileTime _ with _ | sb
       · exact ⟨rfl, h⟩
-      · exact tail t s
+      · dsimp only
+        rcases e2.timeFormat _ with _ | s
+        · exact ⟨rfl, h⟩
+        · exact tail _ s
   | header lno names p =>
     intro part m st st' h
     simp only [eval]
@@ -545,7 +549,7 @@ theorem eval_sim {e1 e2 : Env} (ha : EnvAgree e1 e2) (root : Msg) (e : Expr) :
   | exec lno si bo argv => intro part m st st' h; simp only [eval]; exact exprAppend_sim ha _ h _
   | addHeader lno k v => intro part m st st' h; simp only [eval]; exact exprAppend_sim ha _ h _
 
-theorem envAgree_flip (env : Env) : EnvAgree (flipDry env) env := ⟨rfl, rfl, rfl, rfl, rfl, rfl, rfl, rfl⟩
+theorem envAgree_flip (env : Env) : EnvAgree (flipDry env) env := ⟨rfl, rfl, rfl, rfl, rfl, rfl, rfl, rfl, rfl⟩
 
 theorem dryrun_same (env : Env) (root : Msg) (e : Expr) (part : Nat) (m : Msg) (st : St) :
     (eval (flipDry env) root e part m st).1 = (eval env root e part m st).1 ∧
@@ -579,7 +583,7 @@ def destLines (stdinMode : Bool) (path : Bytes) (ml : MatchList) : List Bytes :=
 
 namespace Insp
 
-theorem inspect_go_false (width : Bytes → Nat) (home confpath : Bytes) (stdinMode : Bool) (path : Bytes)
+theorem inspect_go_false (width : Bytes → Nat → Nat) (home confpath : Bytes) (stdinMode : Bool) (path : Bytes)
     (rest pending : MatchList) (out : Bytes) :
     matchesInspect.go width home confpath stdinMode false path rest pending out =
       out ++ (destLines stdinMode path rest).flatten := by
@@ -591,23 +595,25 @@ theorem inspect_go_false (width : Bytes → Nat) (home confpath : Bytes) (stdinM
     · simp [h, ih, destLines]; try (cases mh.ty.info.label <;> rfl)
     · simp [h, ih, destLines]; try (cases mh.ty.info.label <;> rfl)
 
-theorem lines_are_actions (width : Bytes → Nat) (home confpath : Bytes) (stdinMode : Bool) (path : Bytes) (ml : MatchList) :
+theorem lines_are_actions (width : Bytes → Nat → Nat) (home confpath : Bytes) (stdinMode : Bool) (path : Bytes) (ml : MatchList) :
     matchesInspect width home confpath stdinMode false path ml = (destLines stdinMode path ml).flatten := by
   unfold matchesInspect
   rw [inspect_go_false]; simp
 
 end Insp
 
-theorem inspect_lines_are_actions (width : Bytes → Nat) (home confpath : Bytes) (stdinMode : Bool) (path : Bytes) (ml : MatchList) :
+theorem inspect_lines_are_actions (width : Bytes → Nat → Nat) (home confpath : Bytes) (stdinMode : Bool) (path : Bytes) (ml : MatchList) :
     matchesInspect width home confpath stdinMode false path ml = (destLines stdinMode path ml).flatten :=
   Insp.lines_are_actions width home confpath stdinMode path ml
 
-/-- Marker columns for one explanation line: for a value `val`, a non-empty match `[beg, end)` that does
+/-! Marker columns for one explanation line: for a value `val`, a non-empty match `[beg, end)` that does
 not begin inside the leading blanks of its line and does not begin at a newline, the text printed is:
 the prefix, the line of `val` containing `beg` without its leading blanks, and a marker line in which
 `^` stands in the display column of the first matched byte and `$` in the column of the last matched
-character (directly after `^` for a match of width 1), for every width function that is additive. -/
-def Additive (width : Bytes → Nat) : Prop := ∀ a b, width (a ++ b) = width a + width b
+character (directly after `^` for a match of width 1), for EVERY width function (`width str len` stands for
+`strnwidth(str, len)`, see Model/Inspect.lean): the number of blanks before `^` is the BYTE length of the prefix
+`conf:lno: key: ` plus the width of the quoted text before the match.  That this is the display column of the first
+matched character - the prefix consists of one-column one-byte characters - is `marker_display_columns` below. -/
 
 /-- The line of `val` that contains offset `beg`: text after the last newline before `beg`, up to the next newline. -/
 def lineOf (val : Bytes) (beg : Nat) : Bytes × Nat :=
@@ -752,7 +758,7 @@ theorem drop_nspaces_takeWhile (l : Bytes) :
     · have hn : nspaces (a :: r) = 0 := by simp [nspaces, hb]
       rw [hn]; rfl
 
-theorem marker_cols (width : Bytes → Nat) (hw : Additive width) (home confpath : Bytes) (mh : Match) (key val : Bytes)
+theorem marker_cols (width : Bytes → Nat → Nat) (home confpath : Bytes) (mh : Match) (key val : Bytes)
     (beg end_ : Nat) (s : Bytes)
     (hins : mh.ty.isInspect = true) (hk : mh.key = some key) (hv : mh.val = some val)
     (hsub : mh.subs = [{ str := s, off := some (beg, end_) }])
@@ -762,13 +768,13 @@ theorem marker_cols (width : Bytes → Nat) (hw : Additive width) (home confpath
     let lstart := (lineOf val beg).2
     let shown := line.drop (nspaces line)
     let pre := inspectPrefix home confpath mh.lno ++ key ++ [58, 32]
-    let w := width ((val.drop beg).take (end_ - beg))
+    let w := width (val.drop beg) (end_ - beg)
     exprInspect width home confpath mh =
       pre ++ shown ++ [10] ++
-      spaces (pre.length + width ((val.drop (lstart + nspaces line)).take (beg - (lstart + nspaces line)))) ++ [94] ++
+      spaces (inspectHeadWidth width home confpath mh.lno key +
+        width (val.drop (lstart + nspaces line)) (beg - (lstart + nspaces line))) ++ [94] ++
       spaces (w - 2) ++ [36, 10] := by
   intro line lstart shown pre w
-  have _ := hw
   have hl0 : lineStart val beg (val.length + 1) 0 = lstart := lineStart_eq val beg (by omega) hnl
   have hline : line = (val.drop lstart).takeWhile (· != 10) := rfl
   have hns : nspaces (val.drop lstart) = nspaces line := by rw [hline, nspaces_takeWhile]
@@ -777,7 +783,7 @@ theorem marker_cols (width : Bytes → Nat) (hw : Additive width) (home confpath
     rfl
   have hlead' : lstart + nspaces line ≤ beg := hlead
   have hpre : pre = inspectPrefix home confpath mh.lno ++ key ++ [58, 32] := rfl
-  have hw' : w = width ((val.drop beg).take (end_ - beg)) := rfl
+  have hw' : w = width (val.drop beg) (end_ - beg) := rfl
   clear_value shown pre w
   clear hline
   clear_value line lstart
@@ -792,13 +798,12 @@ theorem marker_cols (width : Bytes → Nat) (hw : Additive width) (home confpath
   unfold exprInspect.go
   simp only [Bool.not_true, Bool.false_eq_true, ↓reduceIte, hbne, exprInspect.go, hl0, hns, hshown, hlead',
     ← hw', hlen]
-  have hplen : pre.length = key.length + 2 + (inspectPrefix home confpath mh.lno).length := by
-    rw [hpre]; simp only [List.length_append, List.length_cons, List.length_nil]; omega
-  rw [hplen, hpre, List.nil_append]
+  rw [hpre, List.nil_append]
+  rfl
 
 end Insp
 
-theorem marker_columns (width : Bytes → Nat) (hw : Additive width) (home confpath : Bytes) (mh : Match) (key val : Bytes)
+theorem marker_columns (width : Bytes → Nat → Nat) (home confpath : Bytes) (mh : Match) (key val : Bytes)
     (beg end_ : Nat) (s : Bytes)
     (hins : mh.ty.isInspect = true) (hk : mh.key = some key) (hv : mh.val = some val)
     (hsub : mh.subs = [{ str := s, off := some (beg, end_) }])
@@ -808,11 +813,299 @@ theorem marker_columns (width : Bytes → Nat) (hw : Additive width) (home confp
     let lstart := (lineOf val beg).2
     let shown := line.drop (nspaces line)
     let pre := inspectPrefix home confpath mh.lno ++ key ++ [58, 32]
-    let w := width ((val.drop beg).take (end_ - beg))
+    let w := width (val.drop beg) (end_ - beg)
     exprInspect width home confpath mh =
       pre ++ shown ++ [10] ++
-      spaces (pre.length + width ((val.drop (lstart + nspaces line)).take (beg - (lstart + nspaces line)))) ++ [94] ++
+      spaces (inspectHeadWidth width home confpath mh.lno key +
+        width (val.drop (lstart + nspaces line)) (beg - (lstart + nspaces line))) ++ [94] ++
       spaces (w - 2) ++ [36, 10] :=
-  Insp.marker_cols width hw home confpath mh key val beg end_ s hins hk hv hsub hne hle hnl hlead
+  Insp.marker_cols width home confpath mh key val beg end_ s hins hk hv hsub hne hle hnl hlead
+
+
+/-! ### Display columns: `strnwidth` is additive over text made of whole characters
+
+Since fix 951a0f1 `expr_inspect` accounts for the head `conf:lno: key: ` in columns: the configuration path and the header
+name are measured by `strnwidth`, the punctuation (`~`, `:`, the digits of the line number, the blanks) in bytes
+(`inspectHeadWidth`).  The blanks before `^` are therefore the display width of everything printed before the first matched
+byte whenever the path and the name are texts of whole characters (`Chars`: the decoding of each character does not depend on
+what follows it) and the punctuation consists of one-byte one-column characters (`OneColumn`; ASCII in every locale). -/
+
+/-- `c` is a character of one byte and one column wherever it stands. -/
+def OneColumn (mb : Bytes → Option (Nat × Nat)) (wcw : Nat → Int) (c : UInt8) : Prop :=
+  ∀ rest, ∃ wc, mb (c :: rest) = some (1, wc) ∧ wcw wc = 1
+
+/-- `a` is a text of whole characters for `mb`: it splits into bytes that `mbtowc` rejects and characters `mbtowc` decodes,
+each with the same answer whatever follows the text. -/
+inductive Chars (mb : Bytes → Option (Nat × Nat)) : Bytes → Prop
+  | nil : Chars mb []
+  | invalid (c : UInt8) (rest : Bytes) : (∀ s, mb (c :: (rest ++ s)) = none) → Chars mb rest → Chars mb (c :: rest)
+  | char (ch rest : Bytes) (n wc : Nat) : ch.length = n + 1 → (∀ s, mb (ch ++ (rest ++ s)) = some (n + 1, wc)) →
+      Chars mb rest → Chars mb (ch ++ rest)
+
+namespace Insp
+
+theorem go_acc (mb : Bytes → Option (Nat × Nat)) (wcw : Nat → Int) :
+    ∀ (fuel rem : Nat) (s : Bytes) (w : Nat),
+      strnwidth.go mb wcw fuel rem s w = w + strnwidth.go mb wcw fuel rem s 0 := by
+  intro fuel
+  induction fuel with
+  | zero => intro rem s w; simp [strnwidth.go]
+  | succ n ih =>
+    intro rem s w
+    simp only [strnwidth.go]
+    by_cases hr : (rem == 0) = true
+    · simp [hr]
+    · simp only [hr, Bool.false_eq_true, ↓reduceIte]
+      cases hm : mb s with
+      | none =>
+        dsimp only
+        rw [ih _ _ (w + 1), ih _ _ (0 + 1)]; omega
+      | some p =>
+        obtain ⟨k, wc⟩ := p
+        cases k with
+        | zero => simp
+        | succ k =>
+          dsimp only
+          rw [ih _ _ (w + _), ih _ _ (0 + _)]; omega
+
+/-- More fuel than bytes to look at changes nothing. -/
+theorem go_fuel (mb : Bytes → Option (Nat × Nat)) (wcw : Nat → Int) :
+    ∀ (fuel rem : Nat) (s : Bytes) (w : Nat), rem ≤ fuel →
+      strnwidth.go mb wcw fuel rem s w = strnwidth.go mb wcw rem rem s w := by
+  intro fuel
+  induction fuel using Nat.strongRecOn with
+  | _ fuel ih =>
+    intro rem s w h
+    cases fuel with
+    | zero => have : rem = 0 := by omega
+              subst this; rfl
+    | succ n =>
+      cases rem with
+      | zero => simp [strnwidth.go]
+      | succ r =>
+        simp only [strnwidth.go]
+        have hr : (r + 1 == 0) = false := by
+          cases hh : (r + 1 == 0) with
+          | false => rfl
+          | true => have := eq_of_beq hh; omega
+        simp only [hr, Bool.false_eq_true, ↓reduceIte]
+        cases hm : mb s with
+        | none =>
+          dsimp only
+          have : r + 1 - 1 = r := by omega
+          rw [this, ih n (by omega) _ _ _ (by omega)]
+        | some p =>
+          obtain ⟨k, wc⟩ := p
+          cases k with
+          | zero => rfl
+          | succ k =>
+            dsimp only
+            rw [ih n (by omega) _ _ _ (by omega), ih r (by omega) _ _ _ (by omega)]
+
+end Insp
+
+/-- One round of the loop of `strnwidth`. -/
+theorem strnwidth_step (mb : Bytes → Option (Nat × Nat)) (wcw : Nat → Int) (t : Bytes) (m : Nat) :
+    strnwidth mb wcw t (m + 1) =
+      match mb t with
+      | none => 1 + strnwidth mb wcw (t.drop 1) m
+      | some (0, _) => 0
+      | some (n + 1, wc) => (wcw wc).toNat + strnwidth mb wcw (t.drop (n + 1)) (m + 1 - (n + 1)) := by
+  unfold strnwidth
+  simp only [strnwidth.go]
+  have hr : (m + 1 == 0) = false := by
+    cases hh : (m + 1 == 0) with
+    | false => rfl
+    | true => have := eq_of_beq hh; omega
+  simp only [hr, Bool.false_eq_true, ↓reduceIte]
+  cases hm : mb t with
+  | none =>
+    dsimp only
+    have : m + 1 - 1 = m := by omega
+    rw [this, Insp.go_acc]
+  | some p =>
+    obtain ⟨k, wc⟩ := p
+    cases k with
+    | zero => rfl
+    | succ k =>
+      dsimp only
+      rw [Insp.go_acc, Insp.go_fuel mb wcw m _ _ _ (by omega)]
+      simp
+
+/-- **`strnwidth` is additive after a text of whole characters**: the width of the first `|a| + k` bytes of `a ++ s` is the
+width of `a` plus the width of the first `k` bytes of `s`. -/
+theorem strnwidth_chars (mb : Bytes → Option (Nat × Nat)) (wcw : Nat → Int) (a : Bytes) (h : Chars mb a) :
+    ∀ (s : Bytes) (k : Nat), strnwidth mb wcw (a ++ s) (a.length + k) = strnwidth mb wcw a a.length + strnwidth mb wcw s k := by
+  induction h with
+  | nil => intro s k; simp [strnwidth, strnwidth.go]
+  | invalid c rest hmb _ ih =>
+    intro s k
+    have e1 : (c :: rest).length + k = (rest.length + k) + 1 := by simp only [List.length_cons]; omega
+    have e2 : (c :: rest).length = rest.length + 1 := by simp
+    have h0 := hmb []
+    rw [List.append_nil] at h0
+    rw [e1, List.cons_append, strnwidth_step, hmb s, e2, strnwidth_step, h0]
+    dsimp only
+    rw [List.drop_succ_cons, List.drop_zero, List.drop_succ_cons, List.drop_zero, ih s k, Nat.add_assoc]
+  | char ch rest n wc hlen hmb _ ih =>
+    intro s k
+    have e1 : (ch ++ rest).length + k = (n + rest.length + k) + 1 := by simp only [List.length_append, hlen]; omega
+    have e2 : (ch ++ rest).length = (n + rest.length) + 1 := by simp only [List.length_append, hlen]; omega
+    have h0 := hmb []
+    rw [List.append_nil] at h0
+    have d1 : List.drop (n + 1) (ch ++ (rest ++ s)) = rest ++ s := by
+      rw [← hlen]; exact List.drop_left ..
+    have d2 : List.drop (n + 1) (ch ++ rest) = rest := by
+      rw [← hlen]; exact List.drop_left ..
+    rw [e1, List.append_assoc, strnwidth_step, hmb s, e2, strnwidth_step, h0]
+    dsimp only
+    have a1 : n + rest.length + k + 1 - (n + 1) = rest.length + k := by omega
+    have a2 : n + rest.length + 1 - (n + 1) = rest.length := by omega
+    rw [d1, d2, a1, a2, ih s k, Nat.add_assoc]
+
+namespace Insp
+
+theorem go_prefix (mb : Bytes → Option (Nat × Nat)) (wcw : Nat → Int) (s : Bytes) (k : Nat) :
+    ∀ (pre : Bytes) (fuel : Nat), (∀ c ∈ pre, OneColumn mb wcw c) →
+      strnwidth.go mb wcw (pre.length + fuel) (pre.length + k) (pre ++ s) 0 =
+        pre.length + strnwidth.go mb wcw fuel k s 0 := by
+  intro pre
+  induction pre with
+  | nil => intro fuel _; simp
+  | cons c r ih =>
+    intro fuel h
+    obtain ⟨wc, hmb, hw⟩ := h c (List.mem_cons_self ..) (r ++ s)
+    have e1 : (c :: r).length + fuel = (r.length + fuel) + 1 := by simp only [List.length_cons]; omega
+    have e2 : ((c :: r).length + k == 0) = false := by
+      cases hh : ((c :: r).length + k == 0) with
+      | false => rfl
+      | true => have := eq_of_beq hh; simp only [List.length_cons] at this; omega
+    rw [e1]
+    simp only [strnwidth.go, e2, Bool.false_eq_true, ↓reduceIte, List.cons_append, hmb, hw]
+    rw [go_acc]
+    have e3 : (c :: r).length + k - (0 + 1) = r.length + k := by simp only [List.length_cons]; omega
+    rw [e3]
+    have e4 : List.drop (0 + 1) (c :: (r ++ s)) = r ++ s := rfl
+    rw [e4, ih fuel (fun x hx => h x (List.mem_cons_of_mem _ hx))]
+    simp only [List.length_cons]
+    show 0 + (1 : Int).toNat + _ = _
+    simp only [Int.toNat_one]; omega
+
+end Insp
+
+/-- Over a prefix of one-byte one-column characters `strnwidth` counts the bytes of the prefix. -/
+theorem strnwidth_prefix (mb : Bytes → Option (Nat × Nat)) (wcw : Nat → Int) (pre s : Bytes) (k : Nat)
+    (h : ∀ c ∈ pre, OneColumn mb wcw c) :
+    strnwidth mb wcw (pre ++ s) (pre.length + k) = pre.length + strnwidth mb wcw s k := by
+  unfold strnwidth
+  exact Insp.go_prefix mb wcw s k pre k h
+
+/-- The head `~ path :lno:  key : ` in front of any text: punctuation in bytes, path and key in columns. -/
+theorem strnwidth_head (mb : Bytes → Option (Nat × Nat)) (wcw : Nat → Int) (t p l key e s : Bytes) (k : Nat)
+    (ht : ∀ c ∈ t, OneColumn mb wcw c) (hp : Chars mb p) (hl : ∀ c ∈ l, OneColumn mb wcw c) (hk : Chars mb key)
+    (he : ∀ c ∈ e, OneColumn mb wcw c) :
+    strnwidth mb wcw (t ++ p ++ l ++ key ++ e ++ s) ((t ++ p ++ l ++ key ++ e).length + k) =
+      t.length + strnwidth mb wcw p p.length + l.length + strnwidth mb wcw key key.length + e.length + strnwidth mb wcw s k := by
+  have e1 : t ++ p ++ l ++ key ++ e ++ s = t ++ (p ++ (l ++ (key ++ (e ++ s)))) := by simp only [List.append_assoc]
+  have e2 : (t ++ p ++ l ++ key ++ e).length + k = t.length + (p.length + (l.length + (key.length + (e.length + k)))) := by
+    simp only [List.length_append]; omega
+  rw [e1, e2, strnwidth_prefix mb wcw t _ _ ht, strnwidth_chars mb wcw p hp, strnwidth_prefix mb wcw l _ _ hl,
+    strnwidth_chars mb wcw key hk, strnwidth_prefix mb wcw e _ _ he]
+  omega
+
+/-- **Display columns.**  For `width = strnwidth mb wcw` over ANY `mbtowc`/`wcwidth` (any locale; multibyte, wide and
+zero-width characters in the value, in the configuration path and in the header name): when the path and the name are texts of
+whole characters and the punctuation of the head (`~`, `:lno: `, `: `) consists of one-byte one-column characters, the number of
+blanks before `^` is the display width of the first `|head| + (beg - lbeg)` bytes of the printed line (followed by the rest
+of the value) - everything printed before the first matched byte. -/
+theorem marker_display_columns (mb : Bytes → Option (Nat × Nat)) (wcw : Nat → Int) (home confpath : Bytes) (mh : Match)
+    (key val : Bytes) (beg end_ : Nat) (s : Bytes)
+    (hins : mh.ty.isInspect = true) (hk : mh.key = some key) (hv : mh.val = some val)
+    (hsub : mh.subs = [{ str := s, off := some (beg, end_) }])
+    (hne : beg < end_) (hle : end_ ≤ val.length) (hnl : val[beg]? ≠ some 10)
+    (hlead : (lineOf val beg).2 + nspaces (lineOf val beg).1 ≤ beg)
+    (hpunct : ∀ c ∈ (inspectPath home confpath).1 ++ inspectLno mh.lno ++ [58, 32], OneColumn mb wcw c)
+    (hpath : Chars mb (inspectPath home confpath).2) (hkey : Chars mb key) :
+    let line := (lineOf val beg).1
+    let lstart := (lineOf val beg).2
+    let shown := line.drop (nspaces line)
+    let pre := inspectPrefix home confpath mh.lno ++ key ++ [58, 32]
+    let w := strnwidth mb wcw (val.drop beg) (end_ - beg)
+    exprInspect (strnwidth mb wcw) home confpath mh =
+      pre ++ shown ++ [10] ++
+      spaces (strnwidth mb wcw (pre ++ val.drop (lstart + nspaces line)) (pre.length + (beg - (lstart + nspaces line)))) ++ [94] ++
+      spaces (w - 2) ++ [36, 10] := by
+  intro line lstart shown pre w
+  have hhead : ∀ (r : Bytes) (k : Nat), strnwidth mb wcw (pre ++ r) (pre.length + k) =
+      inspectHeadWidth (strnwidth mb wcw) home confpath mh.lno key + strnwidth mb wcw r k := by
+    intro r k
+    have := strnwidth_head mb wcw (inspectPath home confpath).1 (inspectPath home confpath).2 (inspectLno mh.lno) key [58, 32] r k
+      (fun c hc => hpunct c (by simp only [List.mem_append] at hc ⊢; exact Or.inl (Or.inl hc))) hpath
+      (fun c hc => hpunct c (by simp only [List.mem_append] at hc ⊢; exact Or.inl (Or.inr hc))) hkey
+      (fun c hc => hpunct c (by simp only [List.mem_append] at hc ⊢; exact Or.inr hc))
+    show strnwidth mb wcw (inspectPrefix home confpath mh.lno ++ key ++ [58, 32] ++ r)
+        ((inspectPrefix home confpath mh.lno ++ key ++ [58, 32]).length + k) = _
+    unfold inspectPrefix
+    rw [this]
+    unfold inspectHeadWidth inspectPrefixWidth
+    simp only [List.length_cons, List.length_nil]
+    omega
+  rw [hhead]
+  exact marker_columns (strnwidth mb wcw) home confpath mh key val beg end_ s hins hk hv hsub hne hle hnl hlead
+
+/-! A small `mbtowc`/`wcwidth` pair for evaluated examples: ASCII, U+00E9 (two bytes, one column), U+4E2D (three bytes,
+two columns), U+0301 (two bytes, no column); every other byte >= 0x80 is an invalid sequence. -/
+namespace markerWit
+
+def mb : Bytes → Option (Nat × Nat)
+  | [] => some (0, 0)
+  | 0xE4 :: 0xB8 :: 0xAD :: _ => some (3, 0x4E2D)
+  | 0xC3 :: 0xA9 :: _ => some (2, 0xE9)
+  | 0xCC :: 0x81 :: _ => some (2, 0x301)
+  | c :: _ => if c < 128 then some (1, c.toNat) else none
+
+def wcw (wc : Nat) : Int :=
+  if wc == 0x4E2D then 2 else if wc == 0x301 then 0 else if wc == 0xE9 then 1
+  else if 32 ≤ wc && wc ≤ 126 then 1 else -1
+
+/-- value `中é hi` + U+0301 + `!`, the pattern matched `hi` + U+0301 (bytes 6..10). -/
+def val : Bytes := [0xE4, 0xB8, 0xAD, 0xC3, 0xA9, 32, 104, 105, 0xCC, 0x81, 33]
+def entry (key : Bytes) : Match :=
+  { ty := .header, lno := 2, part := 0, subs := [{ str := [104, 105, 0xCC, 0x81], off := some (6, 10) }],
+    key := some key, val := some val }
+
+theorem ascii (c : UInt8) (h : c < 128) (rest : Bytes) : mb (c :: rest) = some (1, c.toNat) := by
+  unfold mb
+  split
+  · simp_all
+  · rename_i h1; simp at h1; exact absurd h (by rw [h1.1]; decide)
+  · rename_i h1; simp at h1; exact absurd h (by rw [h1.1]; decide)
+  · rename_i h1; simp at h1; exact absurd h (by rw [h1.1]; decide)
+  · rename_i h1; simp at h1; obtain ⟨rfl, _⟩ := h1; simp [h]
+
+/-- A list of printable ASCII bytes consists of one-byte one-column characters. -/
+theorem oneColumn (l : Bytes) (h : (l.all fun c => c < 128 && wcw c.toNat == 1) = true) : ∀ c ∈ l, OneColumn mb wcw c := by
+  intro c hc rest
+  have := List.all_eq_true.1 h c hc
+  simp only [Bool.and_eq_true, decide_eq_true_eq, beq_iff_eq] at this
+  exact ⟨c.toNat, ascii c this.1 rest, this.2⟩
+
+/-- ASCII text is a text of whole characters. -/
+theorem charsAscii (l : Bytes) (h : (l.all fun c => c < 128) = true) (tail : Bytes) (ht : Chars mb tail) : Chars mb (l ++ tail) := by
+  induction l with
+  | nil => exact ht
+  | cons c r ih =>
+    have hc := List.all_eq_true.1 h c (List.mem_cons_self ..)
+    have hr : (r.all fun c => c < 128) = true :=
+      List.all_eq_true.2 fun x hx => List.all_eq_true.1 h x (List.mem_cons_of_mem _ hx)
+    exact Chars.char [c] (r ++ tail) 0 c.toNat rfl (fun s => ascii c (by simpa using hc) _) (ih hr)
+
+theorem charsE9 (tail : Bytes) (ht : Chars mb tail) : Chars mb ([0xC3, 0xA9] ++ tail) :=
+  Chars.char [0xC3, 0xA9] tail 1 0xE9 rfl (fun _ => rfl) ht
+
+theorem chars4E2D (tail : Bytes) (ht : Chars mb tail) : Chars mb ([0xE4, 0xB8, 0xAD] ++ tail) :=
+  Chars.char [0xE4, 0xB8, 0xAD] tail 2 0x4E2D rfl (fun _ => rfl) ht
+
+end markerWit
 
 end Mdsort.Proofs
